@@ -243,12 +243,11 @@ func alphabet() []ra.Req {
 		rNone("u1"), rNone("u2"),
 		rPw("u1", "right"), rPw("u1", "wrong"), rPw("u2", "right"),
 		rKbd("u1", "right"), rKbd("u1", "wrong"),
-		rQuery("u1", "A"), rQuery("u1", "B"), rQuery("u2", "A"), rQuery("u1", "E"),
+		rQuery("u1", "A"), rQuery("u1", "B"), rQuery("u2", "A"),
 		rSigned("u1", "A", "valid"), rSigned("u1", "B", "valid"), rSigned("u2", "A", "valid"), rSigned("u1", "E", "valid"),
 		rSigned("u1", "C", "valid"), rSigned("u1", "C", "rsa-256-under-512"), rSigned("u1", "D", "valid"),
-		rSigned("u1", "A", "otherkey"), rSigned("u1", "A", "session-flip"), rSigned("u1", "A", "user"), rSigned("u1", "A", "flip"),
+		rSigned("u1", "A", "otherkey"), rSigned("u1", "A", "session-flip"), rSigned("u1", "A", "user"),
 		rSigned("u1", "A", "certalgo-plainkey"), rSigned("u1", "E", "plainalgo-certkey"), rSigned("u1", "C", "hash-mismatch"),
-		rSigned("u1", "D", "foreign-format"),
 		rUnknown("u1"),
 	}
 }
